@@ -73,7 +73,7 @@ update_local_map_entry(struct bpf_sock_addr *ctx)
 
     sock_addr_local_entry entry = {0};
     entry.process_id = pid;
-    __u32 uid = (__u32)(bpf_get_current_uid_gid() >> 32);
+    __u32 uid = (__u32)(bpf_get_current_uid_gid() & 0xFFFFFFFF); // lower 32 bits: uid, upper 32 bits: gid
     entry.logon_id = uid;
     entry.is_root = (uid == 0) ? 1 : 0;     // root uid is 0.
     entry.destination_ipv4 = ctx->user_ip4; // we only support ipv4 so far.
@@ -219,7 +219,7 @@ trace_v4(struct pt_regs *ctx, struct probe_sock *sk)
     destination_entry *policy = bpf_map_lookup_elem(&policy_map, &entry);
     if (policy != NULL)
     {
-        __u32 uid = (__u32)(bpf_get_current_uid_gid() >> 32);
+        __u32 uid = (__u32)(bpf_get_current_uid_gid() & 0xFFFFFFFF); // lower 32 bits: uid, upper 32 bits: gid
         sock_addr_audit_key key = {0};
         key.protocol = IPPROTO_TCP;
         key.source_port = skc.skc_num;
